@@ -56,3 +56,10 @@ def specStepsAll (P : Params) (cfg : Cfg) (fs : List Fld) (init : Val) (steps : 
       !(okVals (admissible r)).isEmpty || errs.any (fun e => (admissible r).any (isErrWith e)))
 
 end Rivaas.Bind.Spec
+
+namespace Rivaas.Bind
+/-- the collecting model's outcome as an observation the collecting oracle judges -/
+def toObsAll : OutAll → Spec.ObsAll
+  | .done v es => .done v es
+  | .panic => .panic
+end Rivaas.Bind
